@@ -15,6 +15,7 @@ mod c16;
 mod c18;
 mod c19;
 mod common;
+mod huge;
 
 use std::path::PathBuf;
 
@@ -34,7 +35,7 @@ fn registry(id: &str) -> Option<PropDef> {
     Some(match id {
         "C01" => PropDef {
             level: "exploration",
-            subs: vec![random::<c01::RoundTrip>(), random::<c01::RoundTripLarge>(), random::<c01::RoundTripBufio>()],
+            subs: vec![random::<c01::RoundTrip>(), random::<c01::RoundTripLarge>(), random::<c01::RoundTripBufio>(), random::<huge::HugeRoundTrip>()],
             assumptions: vec![
                 "ring-role clause asserted only where the signed area is exactly computable (dyadic coordinates) and non-zero",
                 "shapes are built through public constructors honouring their documented preconditions (polyline parts >= 2 points, non-empty first ring/patch)",
@@ -42,12 +43,12 @@ fn registry(id: &str) -> Option<PropDef> {
         },
         "C02" => PropDef {
             level: "exploration",
-            subs: vec![random::<c02::WellFormed>(), random::<c02::WellFormedLarge>()],
+            subs: vec![random::<c02::WellFormed>(), random::<c02::WellFormedLarge>(), random::<huge::HugeWellFormed>()],
             assumptions: vec!["the strict decoder in vlib/refcodec.rs (written from the ESRI whitepaper, pinned to the third-party fixtures at start-up) is the reference"],
         },
         "C04" => PropDef {
             level: "exploration",
-            subs: vec![random::<c02::IndexAddresses>(), random::<c02::IndexLarge>()],
+            subs: vec![random::<c02::IndexAddresses>(), random::<c02::IndexLarge>(), random::<huge::HugeIndex>()],
             assumptions: vec!["record offsets come from the independent strict decoder"],
         },
         "C03" => PropDef {
